@@ -230,6 +230,9 @@ func vfN(quick, thorough int) int {
 	if vfThorough() {
 		n = thorough
 	}
+	if pct := vfEnvInt("VERIF_NSCALE", 100); pct != 100 {
+		n = n * pct / 100
+	}
 	n = (n + vfNShards() - 1) / vfNShards()
 	if n < 1 {
 		n = 1
@@ -245,6 +248,9 @@ func vfMine(i int) bool { return i%vfNShards() == vfShard() }
 func vfRapid(t *testing.T, rec *vfRecord, name string, n int, prop func(*rapid.T)) {
 	t.Helper()
 	seed := vfHash("seed", vfSeed(), vfShard(), name, vfPkg) & 0x7fffffffffffffff
+	if salt := os.Getenv("VERIF_SALT"); salt != "" {
+		seed = vfHash("seed", vfSeed(), vfShard(), name, vfPkg, salt) & 0x7fffffffffffffff
+	}
 	if seed == 0 {
 		seed = 1 // 0 means "random" to rapid
 	}
